@@ -5,14 +5,13 @@ EXTENDS MC_TransformsAs
 (* thorough: the same on 5 positions (masks of up to 4 pairs that use index 4; the others are in QJobs) *)
 TSets == {Q \in AEdgeSets(5, 4) : \E q \in Q : 4 \in {q[1], q[2]}}
 TJobs5 == UNION {
-       {<<m, 1>> : m \in UNION {APerms(Q) : Q \in {Q \in TSets : Cardinality(Q) <= 3}}},
-       {<<m, 3>> : m \in UNION {APerms(Q) : Q \in {Q \in TSets : Cardinality(Q) = 4}}},
-       {<<ASourceFirst(Q, 5), 1>> : Q \in {Q \in TSets : Cardinality(Q) = 4}},
-       {<<ANegAll(ASourceFirst(Q, 5), 5), 4>> : Q \in TSets},
-       {<<m, 2>> : m \in UNION {APerms(Q) : Q \in ALoops(4)}} }
+       {<<m, 2>> : m \in UNION {APerms(Q) : Q \in {Q \in TSets : Cardinality(Q) <= 3}}},      \* every order, offsets None / 1.0
+       {<<ASourceFirst(Q, 5), 1>> : Q \in TSets},                                              \* one order, all four offsets
+       {<<ANegAll(ASourceFirst(Q, 5), 5), 4>> : Q \in {Q \in TSets : Cardinality(Q) >= 3}},     \* negative spelling
+       {<<m, 3>> : m \in UNION {APerms(Q) : Q \in ALoops(4)}} }                                \* diamonds, every order
 TAs5Share == SetToSeq(ADecs(TJobs5))
 TAs5Seq == TAs5Share
 TAs5 == Rng(TAs5Share)
-ALens5 == {3, 5}
+ALens5 == {5}
 ASSUME AHas(TJobs5, 5)
 =============================================================================
